@@ -2,22 +2,51 @@ package harness
 
 import (
 	"fmt"
+	"os"
+	"sort"
 	"testing"
 
+	apierrors "k8s.io/apimachinery/pkg/api/errors"
 	"k8s.io/apimachinery/pkg/api/resource"
 	"pgregory.net/rapid"
+	"sigs.k8s.io/controller-runtime/pkg/client"
 
 	v1 "sigs.k8s.io/karpenter/pkg/apis/v1"
+	"sigs.k8s.io/karpenter/pkg/controllers/dynamicresources/deviceallocation"
+	staticdeprovisioning "sigs.k8s.io/karpenter/pkg/controllers/static/deprovisioning"
+	staticprovisioning "sigs.k8s.io/karpenter/pkg/controllers/static/provisioning"
+	"sigs.k8s.io/karpenter/pkg/state/virtualpods"
 
 	"verif/harness/ev"
 	"verif/harness/gen"
+	"verif/harness/sim"
 )
 
 // C03c: static pools while drifted nodes are being replaced - the number of NodeClaims that are not being deleted never
 // exceeds the pool's node limit, through any history of disruption rounds, queue progress, replacement initialisation /
 // loss, termination and restarts.
 
-func drawC03c(t *rapid.T) *dScenario {
+// c03cScenario adds the static provisioning / deprovisioning controllers to the disruption history: Extra[i] (if set)
+// replaces step i.
+type c03cScenario struct {
+	D     *dScenario `json:"d"`
+	Extra []string   `json:"extra,omitempty"` // "" | staticProvision | staticDeprovision | loseClaim | scaleUp | scaleDown | interleave | interleaveFailCreate | lostThenInterleaveFailCreate | provisionFailCreate
+}
+
+func drawC03c(t *rapid.T) *c03cScenario {
+	d := drawC03cBase(t)
+	s := &c03cScenario{D: d}
+	for i := range d.Steps {
+		e := ""
+		if dpct(t, 45, fmt.Sprintf("c03c_extra%d", i)) {
+			e = rapid.SampledFrom([]string{"staticProvision", "staticDeprovision", "loseClaim", "loseClaim", "loseClaim", "scaleUp", "scaleDown", "interleave", "interleaveFailCreate", "interleaveFailCreate", "lostThenInterleaveFailCreate", "lostThenInterleaveFailCreate", "provisionFailCreate"}).Draw(t, fmt.Sprintf("c03c_extraKind%d", i))
+		}
+		s.Extra = append(s.Extra, e)
+	}
+	return s
+}
+
+func drawC03cBase(t *rapid.T) *dScenario {
 	k := defaultDKnobs()
 	k.StaticPct, k.DriftPct, k.BlockerPct, k.BudgetPct, k.EarlyPct, k.EmptyNodePct = 100, 70, 3, 0, 4, 10
 	k.Sched.MaxNodes, k.MinNodes, k.MaxSteps = 7, 2, 7
@@ -48,9 +77,41 @@ func drawC03c(t *rapid.T) *dScenario {
 	return s
 }
 
-func execC03c(s *dScenario, c *ev.Ctx) {
+func execC03c(cs *c03cScenario, c *ev.Ctx) {
+	s := cs.D
 	r := newDRun(s, c)
 	w := r.b.W
+	devices := deviceallocation.NewController(w.Client)
+	staticProvision := staticprovisioning.NewController(w.Client, w.Cluster, w.Recorder, w.Provider, r.b.Provisioner, w.Clock, devices, virtualpods.NewVirtualPodCache(w.Client))
+	staticDeprovision := staticdeprovisioning.NewController(w.Client, w.Cluster, w.Provider, w.Clock, w.Recorder)
+	poolNames := make([]string, 0, len(r.b.Pools))
+	for n := range r.b.Pools {
+		poolNames = append(poolNames, n)
+	}
+	sort.Strings(poolNames)
+	getPool := func(name string) *v1.NodePool {
+		np := &v1.NodePool{}
+		var err error
+		w.Quiet(func() { err = w.Client.Get(w.Ctx, client.ObjectKey{Name: name}, np) })
+		if err != nil {
+			return nil
+		}
+		return np
+	}
+	// provisionAll reconciles the static provisioning controller for every pool; failCreate fails its first NodeClaim create
+	provisionAll := func(failCreate bool) {
+		if failCreate {
+			w.Faults = append(w.Faults, &sim.Fault{N: 1, Err: apierrors.NewInternalError(fmt.Errorf("injected 500")), Match: func(cl *sim.Call) bool { return cl.Verb == "create" && cl.Kind == "NodeClaim" }})
+		}
+		for _, n := range poolNames {
+			if np := getPool(n); np != nil && np.Spec.Replicas != nil {
+				_, _ = staticProvision.Reconcile(w.Ctx, np)
+			}
+		}
+		w.Faults = nil
+		w.Sync()
+	}
+	staticCreates := 0
 	limits := map[string]int64{}
 	for _, np := range r.b.Pools {
 		if np.Spec.Replicas != nil {
@@ -77,21 +138,139 @@ func execC03c(s *dScenario, c *ev.Ctx) {
 	for i, st := range s.Steps {
 		r.step = i
 		c.Class("step:" + st.Kind)
-		switch st.Kind {
-		case "disrupt":
+		extra := ""
+		if i < len(cs.Extra) {
+			extra = cs.Extra[i]
+		}
+		if extra != "" {
+			c.Class("extra:" + extra)
+		}
+		switch extra {
+		case "staticProvision", "provisionFailCreate":
+			before := len(w.ListNodeClaims())
+			provisionAll(extra == "provisionFailCreate")
+			staticCreates += len(w.ListNodeClaims()) - before
+		case "staticDeprovision":
+			for _, n := range poolNames {
+				if np := getPool(n); np != nil && np.Spec.Replicas != nil {
+					w.Quiet(func() { _, _ = staticDeprovision.Reconcile(w.Ctx, np) })
+				}
+			}
+			w.Sync()
+		case "loseClaim":
+			// a NodeClaim of a static pool is deleted by somebody (its termination is left to the later steps)
+			for _, nc := range w.ListNodeClaims() {
+				if np := r.b.Pools[nc.Labels[v1.NodePoolLabelKey]]; np != nil && np.Spec.Replicas != nil && nc.DeletionTimestamp == nil {
+					// half of the time the termination has already completed: the NodeClaim and its Node are gone
+					nc := nc
+					if i%2 == 0 {
+						for _, n := range w.ListNodes() {
+							if n.Spec.ProviderID == nc.Status.ProviderID && nc.Status.ProviderID != "" {
+								n := n
+								w.Remove(&n)
+							}
+						}
+						w.Remove(&nc)
+					} else {
+						w.Quiet(func() { _ = w.Client.Delete(w.Ctx, &nc) })
+					}
+					break
+				}
+			}
+			w.Sync()
+		case "scaleUp", "scaleDown":
+			for _, n := range poolNames {
+				if np := getPool(n); np != nil && np.Spec.Replicas != nil {
+					v := *np.Spec.Replicas + 1
+					if extra == "scaleDown" {
+						v = *np.Spec.Replicas - 1
+					}
+					if v >= 1 && v <= limits[n] {
+						np.Spec.Replicas = &v
+						w.Apply(np)
+						r.b.Pools[n] = np
+					}
+					break
+				}
+			}
+			w.Sync()
+		case "interleave", "interleaveFailCreate", "lostThenInterleaveFailCreate":
+			if extra == "lostThenInterleaveFailCreate" {
+				// a node of the pool was lost moments ago (its NodeClaim and Node are gone): the pool is short of its replicas
+				// when the disruption pass starts
+				for _, nc := range w.ListNodeClaims() {
+					if np := r.b.Pools[nc.Labels[v1.NodePoolLabelKey]]; np != nil && np.Spec.Replicas != nil && nc.DeletionTimestamp == nil && !nc.StatusConditions().IsTrue(v1.ConditionTypeDrifted) {
+						nc := nc
+						for _, n := range w.ListNodes() {
+							if n.Spec.ProviderID == nc.Status.ProviderID && nc.Status.ProviderID != "" {
+								n := n
+								w.Remove(&n)
+							}
+						}
+						w.Remove(&nc)
+						break
+					}
+				}
+				w.Sync()
+				extra = "interleaveFailCreate"
+			}
+			// the static provisioning controller runs WHILE the disruption controller is in the middle of a pass: at
+			// the instant of its first API write (StaticDrift holds its node-count reservation by then)
+			fired := false
+			w.Monitors = append(w.Monitors, func(_ *sim.World, cl *sim.Call) {
+				if fired || !r.inCtrl.Load() {
+					return
+				}
+				// ... the first write issued while some static pool has a NodeClaim pending disruption
+				held := false
+				for _, n := range poolNames {
+					if _, _, p := w.Cluster.NodePoolState.GetNodeCount(n); p > 0 {
+						held = true
+					}
+				}
+				if !held {
+					return
+				}
+				fired = true
+				was := r.inCtrl.Load()
+				r.inCtrl.Store(false)
+				before := len(w.ListNodeClaims())
+				if os.Getenv("VERIF_DBG") != "" {
+					for _, n := range poolNames {
+						a, d, p := w.Cluster.NodePoolState.GetNodeCount(n)
+						fmt.Printf("C03DBG step %d %s pool %s active=%d deleting=%d pending=%d replicas=%v limit=%d call=%s\n", i, extra, n, a, d, p, *getPool(n).Spec.Replicas, limits[n], cl.String())
+					}
+				}
+				provisionAll(extra == "interleaveFailCreate")
+				if extra == "interleaveFailCreate" {
+					provisionAll(false) // the failed reconcile is retried while the disruption pass is still going
+				}
+				staticCreates += len(w.ListNodeClaims()) - before
+				r.inCtrl.Store(was)
+				c.Class("static_provisioning_interleaved")
+			})
 			r.disruptOnce(nil)
-		case "advance":
-			w.Clock.Step(gen.Seconds(st.Sec))
-		case "queue":
-			r.runQueue()
-		case "init":
-			r.initReplacements()
-		case "lose":
-			r.loseReplacement()
-		case "finish":
-			r.finishDeleting()
-		case "restart":
-			r.restart()
+			w.Monitors = w.Monitors[:len(w.Monitors)-1]
+		}
+		if extra != "" {
+			// the extra step replaces the drawn one
+		} else {
+			switch st.Kind {
+			case "disrupt":
+				r.disruptOnce(nil)
+			case "advance":
+				w.Clock.Step(gen.Seconds(st.Sec))
+			case "queue":
+				r.runQueue()
+			case "init":
+				r.initReplacements()
+			case "lose":
+				r.loseReplacement()
+			case "finish":
+				r.finishDeleting()
+			case "restart":
+				r.restart()
+			}
 		}
 		for pool, lim := range limits {
 			if !judged[pool] {
@@ -111,17 +290,18 @@ func execC03c(s *dScenario, c *ev.Ctx) {
 			replaced = true
 		}
 	}
+	c.ClassIf(staticCreates > 0, "static_provisioning_created_claims")
 	c.ClassIf(replaced, "static_drift_replacement")
 	c.ClassIf(atLimit, "pool_at_limit")
 	c.NTIf(replaced)
 	c.Sample(map[string]any{"nodes": len(s.World.Nodes), "steps": len(s.Steps), "limits": limits})
 }
 
-var propC03c = ev.Prop[dScenario]{
+var propC03c = ev.Prop[c03cScenario]{
 	ID: "C03", Test: "TestC03c",
-	Rule: "rapid draws a disruption world whose pools are all static (replicas = current size, node limit = replicas + 0..2, drift budget 100% / 50% / 2 / 3), most nodes drifted, and a history of 1-7 steps {disruption reconcile, queue reconcile, replacement initialisation / loss, node termination, clock advance, restart}; the REAL disruption controller (StaticDrift), queue, provisioner and lifecycle controller run; " +
+	Rule: "rapid draws a disruption world whose pools are all static (replicas = current size, node limit = replicas + 0..2, drift budget 100% / 50% / 2 / 3), most nodes drifted, and a history of 1-7 steps {disruption reconcile, queue reconcile, replacement initialisation / loss, node termination, clock advance, restart, static provisioning reconcile (optionally with its first NodeClaim create failing), static deprovisioning reconcile, a NodeClaim deleted by a third party, replicas +-1, a disruption reconcile DURING which - at its first API write, when StaticDrift holds its node-count reservation - the static provisioning controller runs (optionally with a failing create)}; the REAL disruption controller (StaticDrift), queue, provisioner, lifecycle, static provisioning and static deprovisioning controllers run; " +
 		"oracle after every step: the NodeClaims of each static pool that are not being deleted number at most the pool's node limit; non-trivial = StaticDrift issued at least one replacement command",
-	Assumptions: []string{"pools that start above their limit are not judged", "the static provisioning / deprovisioning controllers are not part of this world (replica maintenance is covered by the NodePoolState model of C03a)"},
+	Assumptions: []string{"pools that start above their limit are not judged", "interleavings of the two controllers are explored at one point only: the first API write of a disruption pass"},
 	Draw:        drawC03c, Exec: execC03c, ReplayTries: 3,
 }
 
